@@ -314,6 +314,23 @@ def oracle_c03(ctx, st, op, records, settings, spec, res, exc):
         # Savitzky-Golay kernel has negative lobes): that is the property's
         # 'finite non-negative' clause at work, not a bookkeeping failure
         ctx.probe("validation_refused_result")
+        # ... unless every recording, processed alone at the batch's FFT length, is accepted: then the rows of the
+        # batch (which must equal those solo rows) are finite and non-negative too and the refusal is the batch's doing
+        if cls != "diffuse_field" and spec.get("fft_n") != "none_key":
+            for kept in admissible:
+                nbs = set()
+                for nmax in (max(records[i].vt.n_samples for i in kept), max(r_.vt.n_samples for r_ in records)):
+                    nb = spec.get("fft_n")
+                    if nb is None:
+                        nb = 32768
+                        while nb <= nmax:
+                            nb *= 2
+                    nbs.add(int(nb))
+                nb = sorted(nbs)
+                if all(isinstance(solo_rows(st, records[i], spec, nb_), list) for nb_ in nb for i in kept[:24]):
+                    ctx.check(False, "batch_refused_but_each_alone_accepted",
+                              lambda: f"process() refused the batch ({exc}) although every kept recording processed alone at FFT "
+                                      f"length {nb} gives finite, non-negative curves (dts {dts}, policy {spec['policy']})", key=key)
         return
     ctx.check(exc is None, "process_raised",
               lambda: f"process() raised {type(exc).__name__}: {exc} for a valid batch (dts {dts}, policy {spec['policy']})", key=key)
